@@ -48,6 +48,8 @@ var c02MapTemplates = []string{
 	"{% capture c %}{% for kv in m %}{{ kv[0] }}{% endfor %}{% endcapture %}{{ c | upcase }}{% if m contains 'k1' %}T{% endif %}{{ m.k1 }}{{ m.size }}",
 	"{% for kv in m %}{% for kv2 in m %}{{ kv2[0] }}{% break %}{% endfor %}{% endfor %}",
 	"{{ nested.inner | join: ',' }}{% for kv in nested.inner %}{{ kv[0] }}{% endfor %}{{ nested }}",
+	// the map handed to application filters with typed parameters (keys converted to strings: 1 and "1" meet)
+	"{{ m | own_smap }}|{{ mi | own_smap }}|{{ m | own_strs }}|{{ mi | own_imap }}|{{ km | own_smap }}",
 	// map entries that reach one another (a ring of struct pointers, each also holding the first): whatever is
 	// done per entry must not depend on which entry was visited first
 	"{{ ring | json }}|{{ ring }}|{% for kv in ring %}{{ kv[0] }}:{{ kv[1].Title }}>{{ kv[1].Next.Title }},{% endfor %}|{{ shared | json }}|{{ shared }}|{{ shared | inspect }}",
@@ -230,6 +232,23 @@ func c02Engine() *liquid.Engine {
 		n := n
 		e.RegisterFilter(n, func(v any) string { return n })
 	}
+	// application filters with typed parameters: the call layer converts the bound map / list to them
+	e.RegisterFilter("own_smap", func(m map[string]any) string {
+		ks := make([]string, 0, len(m))
+		for k, v := range m {
+			ks = append(ks, fmt.Sprintf("%s=%v", k, v))
+		}
+		sort.Strings(ks)
+		return strings.Join(ks, ",")
+	})
+	e.RegisterFilter("own_strs", func(l []string) string { return strings.Join(l, ",") })
+	e.RegisterFilter("own_imap", func(m map[string]int) int {
+		n := 0
+		for _, v := range m {
+			n += v
+		}
+		return n
+	})
 	for _, n := range []string{"own_tag", "own_tag2", "own_tagx"} {
 		n := n
 		e.RegisterTag(n, func(c render.Context) (string, error) { return n, nil })
